@@ -651,7 +651,8 @@ pub fn driver_main(prop: &PropDef, tier: Tier) -> i32 {
             .arg(first.to_string())
             .arg(stride.to_string())
             .arg(count.to_string())
-            .arg(((w as usize) % ncpu).to_string())
+            // each worker is pinned to one CPU; the offset spreads concurrent check instances over different CPUs
+            .arg(((w as usize + std::process::id() as usize) % ncpu).to_string())
             .arg(if w < 2 { "3" } else { "0" })
             .arg(deadline_s.to_string());
         if scalar {
